@@ -269,7 +269,9 @@ func main() {
 	r.Set("max_items_core", kCore)
 	r.Set("query_names", len(dnsgen.Names()))
 	r.Set("query_types", len(dnsgen.QTypes()))
-	r.Set("clients", fmt.Sprintf("%d (+%d ECS variants in files with the client-subnet map item)", len(dnsgen.Clients(false)), len(dnsgen.Clients(true))-len(dnsgen.Clients(false))))
+	r.Set("very_deep_query_names", fmt.Sprintf("%d (32 labels below w, a 34-label ip6.arpa name, 120 one-letter labels below w, a 255-octet name of 63-octet labels), asked for %d query types (A, TXT)", len(dnsgen.VeryDeepNames()), len(dnsgen.VeryDeepQTypes())))
+	r.Set("queries_per_client", len(c.queries))
+	r.Set("clients", fmt.Sprintf("%d (+%d ECS variants in files with a client-subnet map item, +%d resolvers of the locations AA, \\341\\341, \\000\\001, \\003\\054 in files with item xloc)", len(dnsgen.Clients(false)), len(dnsgen.Clients(true))-len(dnsgen.Clients(false)), len(dnsgen.ClientsX(false, true))-len(dnsgen.Clients(false))))
 	r.Set("backends", "cdb, rdb-v1, rdb-v2 on EVERY file (RocksDB covers the whole product)")
 	if optK >= 0 {
 		r.Set("compiler_option_variants", fmt.Sprintf("cdb 2 workers; rdb-v1/v2 builder mode; rdb-v1/v2 2 workers + batch size 2 + 2 parallel batches: on every file of <=%d items, each compared with the default-option store of the same backend", optK))
@@ -279,12 +281,14 @@ func main() {
 	r.Set("failing_comparisons", c.min.Failing)
 	r.Set("failing_comparisons_not_minimal", nonmin)
 	r.Set("max_answer", dnsgen.MaxAnswer)
-	r.Set("rule", fmt.Sprintf("data file = skeleton (apex of example.com, resolver map m1 on the apex and its wildcard, aa/bb subnets, one probe address per location) + every compatible subset of <=%d items of the %d-item optional alphabet and additionally every subset of <=%d of its %d core items (quick: 1 and 2, thorough: 2 and 3); each file is compiled by cdb.CreateCDBFromReader and rdb.Compile (v1 keys, v2 keys) and opened by dnsserver.NewFBDNSDBBasic+Load; every (query name of the %d-name closed universe) x (9 query types) x (client) goes through the real ServeDNS with maxAnswer=%d and a constant random source; states = data files; transitions = queries served; evaluations = pairwise comparisons of canonical responses (rcode, flags, question, sections as multisets, OPT/ECS); nontrivial = distinct (file, query, client, response) with a response other than REFUSED. In the additional section the rdata of an address at a name with more than one visible address of that family is not compared (the server draws one at random by design). Only minimal failing files are reported: a file none of whose sub-files fails for the same backend pair, kind, query and client.", kAll, len(items), kCore, len(core), len(dnsgen.Names()), dnsgen.MaxAnswer))
+	r.Set("rule", fmt.Sprintf("data file = skeleton (apex of example.com, resolver map m1 on the apex and its wildcard, aa/bb subnets, one probe address per location) + every compatible subset of <=%d items of the %d-item optional alphabet and additionally every subset of <=%d of its %d core items (quick: 1 and 2 over the Quick items, thorough: 2 and 3 over the Core items). Besides plain records, wildcards, cuts, neighbours and maps the alphabet holds: one owner and type both tagged aa and untagged with different rdata (SOA at the apex and at the nested zone, CNAME, apex wildcard, NS); zone-cut data split between aa and untagged (tagged NS next to untagged SOA(+NS), tagged SOA next to untagged NS, at the apex and at sub); catch-all maps on the root wildcard (resolver map and client-subnet map), an exact root map and a *.com map; location ids AA, \\341\\341, \\000\\001, \\003\\054 with a resolver in each; an owner 13 labels below the apex; each file is compiled by cdb.CreateCDBFromReader and rdb.Compile (v1 keys, v2 keys) and opened by dnsserver.NewFBDNSDBBasic+Load; every (query name of the %d-name closed universe, which holds names 12 labels below the apex, the wildcard under w, the nested zone and the delegation) x (9 query types) x (client), and 4 names of 32..121 labels / 255 octets x (A, TXT) x (client), goes through the real ServeDNS with maxAnswer=%d and a constant random source; states = data files; transitions = queries served; evaluations = pairwise comparisons of canonical responses (rcode, flags, question, sections as multisets, OPT/ECS); nontrivial = distinct (file, query, client, response) with a response other than REFUSED. In the additional section the rdata of an address at a name with more than one visible address of that family is not compared (the server draws one at random by design). Only minimal failing files are reported: a file none of whose sub-files fails for the same backend pair, kind, query and client.", kAll, len(items), kCore, len(core), len(dnsgen.Names()), dnsgen.MaxAnswer))
 	r.Assume = []string{
 		"the db package's random source is replaced by a constant (overlay accessor SetRandForVerif): weighted selection itself is C11's subject",
 		"RocksDB and the CDB reader are executed, not modelled",
 		"skeleton variant B (composite '.' apex) is not enumerated; the composite form is exercised by the nested-zone and root-zone items",
 		"compiler options beyond {builder, 2 workers, batch size 2} and files with more than 3 interacting optional items are outside the bound",
+		"sections are compared as multisets: the order of records inside a section is not part of the observation; two SOA records of one name with the SAME tag are not in the alphabet (which one a negative answer carries is then a property of the store's duplicate order)",
+		"owners deeper than 13 labels below the apex and maps on owners other than root, *., *.com, the apex, *.apex, *.w, x.w are outside the alphabet (name-to-map selection over more owners: C03 level C)",
 	}
 	r.Finish()
 }
